@@ -53,12 +53,15 @@ def structMembers (m : Module) (o : Options) (members : List Member) : G (List R
   structMembersFrom m o members.length 0 members
 
 /-- the derive list of `rust_struct` (after the panics have been ruled out) -/
-def deriveList (o : Options) (hasRts isHostShareable : Bool) : List String :=
+def deriveListB (bmVertex bmHost encase serde hasRts isHostShareable : Bool) : List String :=
   ["Debug"] ++ (if !hasRts then ["Copy"] else []) ++ ["Clone", "PartialEq"] ++
-  (if o.bmVertex && !isHostShareable then ["bytemuck::Pod", "bytemuck::Zeroable"] else []) ++
-  (if o.bmHost && isHostShareable then ["bytemuck::Pod", "bytemuck::Zeroable"] else []) ++
-  (if o.encase && isHostShareable then ["encase::ShaderType"] else []) ++
-  (if o.serde then ["serde::Serialize", "serde::Deserialize"] else [])
+  (if bmVertex && !isHostShareable then ["bytemuck::Pod", "bytemuck::Zeroable"] else []) ++
+  (if bmHost && isHostShareable then ["bytemuck::Pod", "bytemuck::Zeroable"] else []) ++
+  (if encase && isHostShareable then ["encase::ShaderType"] else []) ++
+  (if serde then ["serde::Serialize", "serde::Deserialize"] else [])
+
+def deriveList (o : Options) (hasRts isHostShareable : Bool) : List String :=
+  deriveListB o.bmVertex o.bmHost o.encase o.serde hasRts isHostShareable
 
 /-- `rust_struct` -/
 def rustStruct (m : Module) (o : Options) (gvt : List Nat) (h : Nat) (t : Ty)
